@@ -813,6 +813,11 @@ func (p *parser) parseHashLiteral() ast.Expression {
 	for !p.peekTokenIs(token.RBRACE) {
 		p.nextToken()
 		key := p.parseExpression(LOWEST)
+		if key == nil {
+			// what stands there is no expression ({let: 1}); without a key there is no entry
+			p.errors = append(p.errors, fmt.Sprintf("line %d: syntax error: invalid hash key %s", p.curToken.LineNumber, p.curToken.Literal))
+			return nil
+		}
 
 		if !p.expectPeek(token.COLON) {
 			return nil
